@@ -935,6 +935,78 @@ def _pick(out, keys):
     return " ".join(f"{k}={d.get(k)}" for k in keys)
 
 
+def ins_midrun_resume_test(ctx, tmp, seed=3, kill_at=3):
+    """the stopping criteria of a run KILLED BETWEEN LEVELS and resumed from the periodic checkpoint: the first criteria vector the
+    resumed loop compares must be the one the uninterrupted run would have compared at that level — in particular
+    log_dZ = |ln Z_k - ln Z_(k-1)| with the evidence of the level BEFORE the checkpoint — and history keeps one entry per iteration
+    (seeded change C15-iA: the periodic checkpoint was written after `iteration += 1` but before `update_history()`, so the
+    restored history was one entry short and log_dZ compared with ln Z_(k-2))."""
+    import torch
+    from .c03 import FakeFlows, make_model
+    from nessai.samplers.importancesampler import ImportanceNestedSampler
+    _quiet()
+    out = tempfile.mkdtemp(dir=tmp)
+    dims = 2
+    np.random.seed(seed)
+    torch.manual_seed(seed)
+    c = dict(kind="ins-midrun-resume", seed=seed, kill_after_iteration=kill_at)
+    rec = {"first": {}, "resumed": []}
+    orig_compute, orig_ckpt = ImportanceNestedSampler.compute_stopping_criterion, ImportanceNestedSampler.checkpoint
+
+    def compute(self_):
+        cond = orig_compute(self_)
+        row = dict(it=int(self_.iteration), logZ=float(self_.state.logZ), log_dZ=float(self_.log_dZ), n_hist=len(self_.history["logZ"]))
+        (rec["resumed"].append(row) if rec.get("phase") == "resumed" else rec["first"].__setitem__(row["it"], row))
+        return cond
+
+    def checkpoint(self_, *a, **k):
+        r = orig_ckpt(self_, *a, **k)
+        f = os.path.join(out, "ckpt.pkl")
+        if k.get("periodic") and int(self_.iteration) == kill_at and "copied" not in rec and os.path.exists(f):
+            shutil.copy(f, os.path.join(out, "mid.pkl"))        # what a process killed right after this checkpoint leaves behind
+            rec["copied"] = True
+        return r
+
+    try:
+        with FakeFlows(dims, True, None), mock.patch.object(ImportanceNestedSampler, "compute_stopping_criterion", compute), \
+                mock.patch.object(ImportanceNestedSampler, "checkpoint", checkpoint):
+            s = ImportanceNestedSampler(
+                make_model(dims, seed), nlive=60, output=out, seed=seed, plot=False, checkpointing=True, checkpoint_on_iteration=True,
+                checkpoint_interval=1, min_samples=20, min_remove=1, reparameterisation="logit", resume_file="ckpt.pkl",
+                stopping_criterion="log_dZ", tolerance=0.0, min_iteration=kill_at + 3, max_iteration=kill_at + 3)
+            s.nested_sampling_loop()
+            if "copied" not in rec:
+                ctx.case(("ins-midrun-resume", seed), False, c, kind="ins-midrun-resume:no-checkpoint")
+                return
+            rec["phase"] = "resumed"
+            with open(os.path.join(out, "mid.pkl"), "rb") as f:
+                pk = pickle.load(f)
+            s3 = ImportanceNestedSampler.resume_from_pickled_sampler(pk, make_model(dims, seed))
+            it0 = int(s3.iteration)
+            s3.nested_sampling_loop()
+        rows = rec["resumed"]
+        if not rows:
+            ctx.case(("ins-midrun-resume", seed), False, c, kind="ins-midrun-resume:nothing-after-resume")
+            return
+        prev = rec["first"].get(rows[0]["it"] - 1, {}).get("logZ")
+        for r_ in rows:
+            if prev is not None and not close(r_["log_dZ"], abs(r_["logZ"] - prev), 1e-9):
+                ctx.oracle_fail("ImportanceNestedSampler:resume-from-periodic-checkpoint:log_dZ",
+                                f"resumed at iteration {it0}: at level {r_['it']} the loop compared log_dZ = {r_['log_dZ']!r}; "
+                                f"|ln Z_{r_['it']} - ln Z_{r_['it'] - 1}| = {abs(r_['logZ'] - prev)!r}", {**c, "rows": rows})
+                break
+            if r_["n_hist"] != r_["it"]:
+                ctx.oracle_fail("ImportanceNestedSampler:resume-from-periodic-checkpoint:history-length",
+                                f"resumed at iteration {it0}: at level {r_['it']} history holds {r_['n_hist']} evidence entries", {**c, "rows": rows})
+                break
+            prev = r_["logZ"]
+        ctx.case(("ins-midrun-resume", seed, it0, len(rows)), True, c, kind="ins-midrun-resume")
+    except Exception as e:  # noqa
+        ctx.oracle_fail("ImportanceNestedSampler:resume-from-periodic-checkpoint:raised", f"{type(e).__name__}: {e}", c)
+    finally:
+        shutil.rmtree(out, ignore_errors=True)
+
+
 def run_ins_real(ctx, cfg, tmp):
     """complete run of the real ImportanceNestedSampler with exactly-known substitute flows (harness.c03)"""
     import torch
@@ -1214,6 +1286,8 @@ def correspond(ctx):
         for l, o, i, c in zip(lines, outs, impls, cases):
             if _pick(o, ["k", "fin", "k2", "same"]) != i:
                 ctx.disagree("real standard run: model replay of the recorded conditions differs", {"model": o, "impl": i, "case": c})
+        for sd, ka in ((3, 3), (4, 2)) if ctx.quick else ((3, 3), (4, 2), (5, 4), (6, 5), (7, 1)):
+            ins_midrun_resume_test(ctx, tmp, seed=sd + 10 * ctx.seed, kill_at=ka)
         lines, impls, cases = [], [], []
         for cfg in ins_run_cfgs(ctx, ctx.scale(20, 150)):
             r = run_ins_real(ctx, cfg, tmp)
